@@ -182,17 +182,29 @@ func trueSize(it Item) int {
 
 func observeStream(o *xbobs.Obs, c Case) {
 	tail, extra := xbobs.BytesOf(c.Tail), xbobs.BytesOf(c.Extra)
-	var bb bytes.Buffer
-	ow := &xbinary.ObjectsWriter{Writer: &bb}
+	// the destination of the ObjectsWriter (an exported field) is exchanged every third item in every second case: the
+	// stream is what the destinations received, one after the other
+	cur := &bytes.Buffer{}
+	parts := []*bytes.Buffer{cur}
+	ow := &xbinary.ObjectsWriter{Writer: cur}
 	total := 0
 	bodies := make([][]byte, len(c.Xs))
 	for i, it := range c.Xs {
+		if c.ID%2 == 1 && i > 0 && i%3 == 0 {
+			cur = &bytes.Buffer{}
+			parts = append(parts, cur)
+			ow.Writer = cur
+		}
 		bodies[i] = xbobs.Expand(it.Body)
 		n, err := xbobs.Write(ow, it.K, it.V, bodies[i])
 		if err != nil {
 			n = -1 << 40
 		}
 		total += n
+	}
+	var bb bytes.Buffer
+	for _, p := range parts {
+		bb.Write(p.Bytes())
 	}
 	o.Mark("ObjectsWriter stream: n,len,bytes")
 	o.AddInt(total)
